@@ -53,6 +53,10 @@ SIG_TYPE0 = 'C08 / CRC checked over re-encoding: CRC type flipped to 0, left-ove
 # Genuine defects reported to the coordinator that are possibly not (yet) in known_findings.json: printed as
 # PENDING-FINDING without failing the run; once listed they are ordinary KNOWN-FINDINGs.
 PENDING_FINDINGS = []
+# The two "left-over item" findings exist in the unchanged tree ONLY for the bundle age block (type 7): its BTSD class
+# (a CborItem with a UintField) swallows the left-over item list; for every other block type scapy's payload
+# dissection raises and the bundle is dropped.  The same acceptance for any other block type is a new violation.
+LEFTOVER_TOLERANT_TYPES = (7,)
 KNOWN_SIGS = (SIG_COLLIDE, SIG_SAME, SIG_EID, SIG_SWALLOW, SIG_TYPE0)
 CORPUS = os.path.join(VERIF, 'harness', 'corpus', 'C08_reencoding_witnesses.json')
 
@@ -275,6 +279,8 @@ def classify_accept(orig, bad, off):
     if not hit:
         return (None, 'corruption outside every block')
     idx = hit[0]
+    item0 = v_orig[idx]['item']
+    btype = item0[0] if (idx > 0 and isinstance(item0, list) and item0) else None
     re_ok = all(not ent['problems'] for ent in v_re)
     if len(v_re) < len(v_orig):
         # is the re-encoding the original with some blocks (after the corrupted one) missing?
@@ -291,11 +297,15 @@ def classify_accept(orig, bad, off):
             pos += 1
         if kept is not None and idx in kept:
             lost = [num for num in range(len(left)) if num not in kept]
+            if btype not in LEFTOVER_TOLERANT_TYPES:
+                return (None, 'left-over items not rejected - following block swallowed by a block of type %s (bundle accepted without block(s) #%s)' % (btype, lost))
             return (SIG_SWALLOW, 'block(s) #%s of the original are missing from what the agent decoded (re-encoding %s); the corrupted block #%d re-encodes to its original octets'
                     % (lost, reenc.hex(), idx))
         return (None, 're-encoding %s has fewer blocks than the original' % reenc.hex())
     if len(v_re) == len(v_orig) and re_ok:
         if v_re[idx]['ctype'] == 0 and v_orig[idx]['ctype'] in (1, 2):
+            if idx == 0 or btype not in LEFTOVER_TOLERANT_TYPES:
+                return (None, 'left-over items not rejected - CRC type flipped to none in %s, CRC item discarded' % ('the primary block' if idx == 0 else 'a block of type %s' % (btype,)))
             return (SIG_TYPE0, 'block #%d decoded with CRC type 0 (was %d): nothing is checked; re-encoding %s' % (idx, v_orig[idx]['ctype'], reenc.hex()))
         if v_re[idx]['ctype'] in (1, 2) and v_re[idx]['octets'] != v_orig[idx]['octets']:
             return (SIG_COLLIDE, 'decoded values differ; CRC of the re-encoded block #%d %s collides with the stored value' % (idx, v_re[idx]['octets'].hex()))
@@ -319,7 +329,7 @@ def judge_rx(orig, off, xs):
         out['indep'] = indep_verdict(bad)
         if out['indep'] != 'ok':
             (sig, text) = classify_accept(orig, bad, off)
-            out['sig'] = sig or ('C08 / corrupted CRC-protected block not dropped: %s' % text.split(':')[0].split('(')[0].strip())
+            out['sig'] = sig or ('C08 / corrupted CRC-protected block not dropped: %s' % text.split(':')[0].strip()[:160])
             out['what'] = ('xor %s at octet %d of %s: independent receiver: %s; agent: %s (%s); %s'
                            % (bytes(xs).hex(), off, orig.hex(), out['indep'], ', '.join(res['effects']), res['surface'], text))
     return out
@@ -409,6 +419,63 @@ EIDS_LOCAL = ['dtn://me/app', 'dtn://me/', 'dtn://me/x/y']
 EIDS_AWAY = ['dtn://other/svc', 'ipn:5.7', 'dtn://void/sink']
 EIDS_SRC = ['dtn://a/', 'dtn://src/app', 'ipn:9.1', 'dtn://node-b/']
 EIDS_RPT = ['dtn:none', 'dtn://a/rpt', 'ipn:9.2']
+
+
+def item_heads(item, base):
+    ''' offsets of the initial octet of every (nested) item of a canonically encoded CBOR item at ``base`` '''
+    out = [base]
+    if isinstance(item, list):
+        pos = base + len(cbor2.dumps(len(item))) if len(item) >= 24 else base + 1
+        for sub in item:
+            out += item_heads(sub, pos)
+            pos += len(cbor2.dumps(sub))
+    return out
+
+
+def structural_corruptions(raw, views):
+    ''' EVERY single-bit flip of every structural octet: the array head and the initial octet of every item
+    (type code, block number, flags, CRC type, BTSD head, CRC head; nested EID / timestamp heads) of every
+    CRC-protected block, plus the two framing octets 0x9f / 0xff of the bundle. '''
+    out = []
+    offs = [0, len(raw) - 1]
+    for ent in views:
+        if ent['ctype'] in (1, 2) and not ent['problems']:
+            offs += item_heads(ent['item'], ent['start'])
+    for off in sorted(set(offs)):
+        for bit in range(8):
+            out.append((off, bytes([1 << bit]).hex(), 'structural'))
+    return out
+
+
+def structural_specs():
+    ''' bundles with 2 and 3 canonical blocks of every kind the codec knows, mixed CRC types '''
+    hop = dict(kind='hop', limit=30, count=2)
+    prev = dict(kind='prev_node', eid='dtn://prev/')
+    age = dict(kind='age', ms=70000)
+    raw192 = dict(kind='raw')
+    layouts = [
+        (2, [(bg.BLOCK_HOP, hop, 1)], 2, 'dtn://other/svc'),            # the classic: hop count then payload, forwarded
+        (1, [(bg.BLOCK_PREV_NODE, prev, 2)], 1, 'dtn://me/app'),
+        (2, [(192, raw192, 1)], 1, 'dtn://me/app'),
+        (1, [(bg.BLOCK_AGE, age, 2)], 2, 'dtn://other/svc'),
+        (1, [(bg.BLOCK_HOP, hop, 1), (bg.BLOCK_AGE, age, 2)], 1, 'dtn://me/app'),
+        (2, [(bg.BLOCK_PREV_NODE, prev, 2), (192, raw192, 1)], 2, 'dtn://other/svc'),
+        (2, [(192, raw192, 2), (bg.BLOCK_HOP, hop, 2)], 0, 'dtn://me/app'),
+        (0, [(bg.BLOCK_HOP, hop, 1), (bg.BLOCK_PREV_NODE, prev, 0)], 2, 'ipn:5.7'),
+        (2, [(9, raw192, 1), (bg.BLOCK_AGE, age, 1)], 1, 'dtn://other/svc'),
+    ]
+    specs = []
+    for (lidx, (pct, exts, yct, dest)) in enumerate(layouts):
+        blocks = []
+        for (bidx, (btype, view, ct)) in enumerate(exts):
+            data = bg.view_data(view) if view['kind'] != 'raw' else bytes([0x41 + bidx, 0x42, 0x43])
+            blocks.append(dict(type=btype, num=2 + bidx, flags=0, crc_type=ct, data=data.hex(), crc=None))
+        blocks.append(dict(type=1, num=1, flags=0, crc_type=yct, data=b'payload'.hex(), crc=None))
+        flags = bg.FLAG_REQ_RECEPTION | bg.FLAG_REQ_FORWARDING | bg.FLAG_REQ_DELIVERY if lidx % 2 == 0 else 0
+        spec = dict(version=7, flags=flags, crc_type=pct, dest=dest, src='dtn://src/app', report_to='dtn://a/rpt',
+                    time=650000000000 + lidx, seq=lidx, lifetime=3600000, frag=None, crc=None, blocks=blocks)
+        specs.append(bg.fill_crc(spec))
+    return specs
 
 
 def sweep_specs(rng, count):
@@ -881,6 +948,19 @@ def main():
         exhaustive = len(tasks) < full_bits
         corr = corruptions(rng, raw, views, bursts, bit_step=(1 if exhaustive else 3), bit_phase=len(tasks))
         tasks.append(dict(orig=raw.hex(), corr=corr, crc_types=[ent['ctype'] for ent in views], ref=ref['effects'], exhaustive=exhaustive))
+    # exhaustive structural sweep (both tiers): bundles with 2 and 3 canonical blocks of mixed kinds and CRC types
+    n_struct = 0
+    for spec in structural_specs():
+        raw = bg.encode(spec)
+        new_driver()
+        ref = feed(raw)
+        if not ref['effects'] or indep_verdict(raw) != 'ok':
+            chk.obligation('coverage:structural bundle %d accepted uncorrupted' % n_struct, False, raw.hex())
+            continue
+        views = block_views(raw)
+        tasks.append(dict(orig=raw.hex(), corr=structural_corruptions(raw, views), crc_types=[ent['ctype'] for ent in views],
+                          ref=ref['effects'], exhaustive=True))
+        n_struct += 1
     new_driver()
     tick(chk, 'rx tasks built: %d bundles, %d corruptions (skipped %d)' % (len(tasks), sum(len(t['corr']) for t in tasks), skipped))
     with multiprocessing.get_context('fork').Pool(16) as pool:
@@ -950,7 +1030,7 @@ def main():
             if len(rows) != len(res_list):
                 model_bad.append('result count differs for %s' % task['orig'][:60])
                 continue
-            for ((off, xs_hex, tag), res, (lax, strict, canon)) in zip(task['corr'], res_list, rows):
+            for ((off, xs_hex, tag), res, (lax, strict, canon, arity)) in zip(task['corr'], res_list, rows):
                 where = 'xor %s at %d of %s' % (xs_hex, off, task['orig'])
                 pos_stats['lax_drop' if lax == 1 else 'lax_accept' if lax == 2 else 'lax_none'] += 1
                 pos_stats['canonical'] += canon
@@ -975,6 +1055,11 @@ def main():
                                 lib_rejects = True      # e.g. invalid UTF-8: the CBOR library itself refuses the octets
                         if not lib_rejects:
                             model_bad.append('%s model accepts, agent drops (%s): %s' % (name, res['surface'], where))
+                if arity == 1:
+                    pos_stats['arity_bad'] = pos_stats.get('arity_bad', 0) + 1
+                    if not res['dropped'] and res['sig'] not in (SIG_SWALLOW, SIG_TYPE0):
+                        model_bad.append('a canonical block array with left-over / missing items (model: undecodable, C08_leftover_items_rejected) '
+                                         'is not dropped by the agent (%s): %s' % (res['effects'], where))
                 if strict == 2 and canon == 1 and indep_verdict(bad_oct) != 'ok':
                     model_bad.append('strict model accepts a canonical corruption with a wrong CRC: %s' % where)
     if tx_model is not None:
@@ -1051,6 +1136,7 @@ def main():
     enough = len(tx_raws) >= 50 and rx_total >= 1000 and all(any(ent['ctype'] == ct for (_s, _r, views, _p) in tx_raws for ent in views) for ct in (0, 1, 2))
     chk.obligation('coverage:tx paths and rx sweep ran', enough, '%d transmissions, %d corruptions' % (len(tx_raws), rx_total))
     chk.coverage['rx_bundles'] = len(tasks)
+    chk.coverage['rx_structural_bundles'] = n_struct
     chk.coverage['rx_bundles_exhaustive_single_bit'] = sum(1 for task in tasks if task['exhaustive'])
     chk.coverage['rx_bundles_compared_with_model'] = len(model_tasks)
     chk.coverage['rx_corruptions'] = rx_total
@@ -1072,7 +1158,7 @@ def main():
         rule=('tx: octet strings handed to the fake CL by the real Agent for %d send requests (27 CRC-type assignments x local / typed-local / '
               'forward / report / fragment paths), non-trivial = has a block with CRC type 1 or 2; rx: valid bundles (%d) x every single-bit flip '
               'inside CRC-protected blocks + %d sampled bursts per block (span 2..16/32 bits, also ending on / straddling the CRC value) + directed '
-              're-spellings (00/01->f4/f5, bstr->array head, /->#, non-shortest 18 xx) + CRC value to zeros/ones/complement, non-trivial = the '
+              're-spellings (00/01->f4/f5, [plus, in both tiers, EVERY single-bit flip of every structural octet - array heads, initial octets of all items, 0x9f/0xff framing - of 9 bundles with 2-3 canonical blocks of mixed kinds and CRC types]  bstr->array head, /->#, non-shortest 18 xx) + CRC value to zeros/ones/complement, non-trivial = the '
               'corrupted octets still decode (reach check_all_crc); distinct = distinct (bundle, offset, xor pattern); plus corpus witnesses, '
               'CRC table vectors and hunt candidates' % (len(scenarios), len(tasks), bursts)),
         assumptions=[
